@@ -109,8 +109,10 @@ pub mod gtmp;
 pub mod gen;
 pub mod c01;
 pub mod c03;
+pub mod c03t;
 pub mod c04;
 pub mod c05;
+pub mod c05t;
 pub mod c06;
 pub mod c06t;
 pub mod c08;
@@ -123,13 +125,16 @@ pub mod c16;
 pub mod c17;
 pub mod c18;
 pub mod c19;
+pub mod c19t;
 
 pub fn registry() -> Vec<(&'static str, &'static str, fn())> {
     let mut v = Vec::new();
     c01::register(&mut v);
     c03::register(&mut v);
+    c03t::register(&mut v);
     c04::register(&mut v);
     c05::register(&mut v);
+    c05t::register(&mut v);
     c06::register(&mut v);
     c06t::register(&mut v);
     c08::register(&mut v);
@@ -142,6 +147,7 @@ pub fn registry() -> Vec<(&'static str, &'static str, fn())> {
     c17::register(&mut v);
     c18::register(&mut v);
     c19::register(&mut v);
+    c19t::register(&mut v);
     gen::register(&mut v);
     v
 }
